@@ -241,9 +241,13 @@ def run(ctx):
             analyse_resolution(ctx, interp, om, consts, r, layout)
         # resolutions above MAX must be refused
         over = encode_generic(interp, consts.MAX + 1, n)
-        if over.returns:
+        if over.returns and all(opaque_path(o.state) or not isinstance(o.value, Lin) for o in over.returns):
+            ctx.unk("C05.3", f"{Q}.serialize at resolution {consts.MAX + 1} (> MAX_RESOLUTION)", core.loc(SER, over.returns[0].node),
+                    "a return path depends on a condition the analysis does not model")
+        elif over.returns:
+            o_ = [o for o in over.returns if not opaque_path(o.state) and isinstance(o.value, Lin)][0]
             ctx.bad("C05.3", f"{Q}.serialize at resolution {consts.MAX + 1} (> MAX_RESOLUTION) returns an id",
-                    core.loc(SER, over.returns[0].node), f"value {over.returns[0].value}")
+                    core.loc(SER, o_.node), f"value {o_.value}")
         else:
             ctx.ok("C05.3", f"{Q}.serialize at resolution {consts.MAX + 1} (> MAX_RESOLUTION) raises", core.loc(SER, over.raises[0].node),
                    "every path raises")
@@ -314,7 +318,7 @@ def run(ctx):
     if marks:
         ctx.ob("C05.4", f"{Q}.serialize: marker positions strictly decrease with resolution", core.DISCHARGED if dec else core.VIOLATED,
                core.loc(SER, ctx.sources.func(SER, "serialize")), f"marker bit by resolution: {marks}")
-    ctx.floor("resolutions analysed", len(layout), 25)
+    ctx.floor("resolutions analysed", len(layout), 25, soft=True)
     # ---- C05.10: a decoded cell is a record of its own ----------------------------------------------------------------
     from . import purity
     purity.fresh_result(ctx, "C05.10", "a5.core.serialization.deserialize", "the decoded cell")
